@@ -7,6 +7,7 @@ import (
 	"net/http"
 	"net/http/httptest"
 	"net/url"
+	"strconv"
 	"strings"
 
 	"github.com/fabiolb/fabio/route"
@@ -21,6 +22,8 @@ type tgtIn struct {
 	Strip    string `json:"strip,omitempty"`
 	Prepend  string `json:"prepend,omitempty"`
 	Redirect string `json:"redirect,omitempty"`
+	Allow    string `json:"allow,omitempty"` // access rules of the target (the gate in front of the redirect branch)
+	Deny     string `json:"deny,omitempty"`
 }
 
 func (t tgtIn) opts() map[string]string {
@@ -33,6 +36,12 @@ func (t tgtIn) opts() map[string]string {
 	}
 	if t.Redirect != "" {
 		o["redirect"] = t.Redirect
+	}
+	if t.Allow != "" {
+		o["allow"] = t.Allow
+	}
+	if t.Deny != "" {
+		o["deny"] = t.Deny
 	}
 	return o
 }
@@ -197,9 +206,29 @@ func genPrependOdd(r *hx.Rand) string {
 }
 
 func genCode(r *hx.Rand) string {
-	if r.Chance(3, 5) {
+	switch r.Intn(10) {
+	case 0, 1, 2, 3, 4:
 		return r.Pick([]string{"301", "302", "303", "307", "308"})
+	case 5, 6: // the whole documented range 300..399, and its neighbours
+		return strconv.Itoa(290 + r.Intn(120))
+	case 7: // spellings strconv.Atoi accepts or rejects
+		n := strconv.Itoa(295 + r.Intn(110))
+		return r.Pick([]string{"+", "-", "0", "00", " ", "", ""}) + n + r.Pick([]string{"", "", "", " ", "0", ".0", "e0", "_"})
 	}
 	return r.Pick([]string{"", "300", "399", "299", "400", "200", "0", "abc", "-301", "+301", "0301", "3 01", "301 ", "3e2",
 		"99999999999999999999", "-99999999999999999999", "9223372036854775807", "9223372036854775808", "١٢٣", "30١", "304", "350"})
+}
+
+// genAccess: access rules for a target. The client of c13.http is 127.0.0.1, so the first two deny it.
+func genAccess(r *hx.Rand, t *tgtIn) {
+	switch r.Intn(4) {
+	case 0:
+		t.Deny = "ip:127.0.0.1"
+	case 1:
+		t.Allow = "ip:10.0.0.0/8"
+	case 2:
+		t.Allow = "ip:127.0.0.0/8"
+	default:
+		t.Deny = "ip:10.0.0.0/8"
+	}
 }
